@@ -198,6 +198,11 @@ type Lifetime struct {
 	// number present, in path order) standalone snapshot file - a user removing a
 	// file by hand. 0 = nothing.
 	PreDelete int `json:"predelete,omitempty"`
+	// PreCorrupt: before this lifetime starts, the driver damages one snapshot file the
+	// way a crash or a bad disk does (the value selects file and kind: torn tail, one
+	// flipped byte, a half-written entry appended, the last terminator lost, emptied).
+	// The file is no longer predicted; only the narrow oracles apply to it. 0 = nothing.
+	PreCorrupt int `json:"precorrupt,omitempty"`
 	// FreshCfg: build a new Config from the same options for every call
 	// (differential oracle of property C12).
 	FreshCfg bool `json:"freshcfg,omitempty"`
